@@ -146,11 +146,16 @@ def verify_unit_once(unit, repo_copy, workdir, extra=None, demote=None):
             where = ""
             culprit = None
             if spans:
-                ln = spans[0]["line_start"]; src = E.line_src.get(ln)
+                # the primary span is where rustc/Verus points; secondary spans (e.g. the struct a missing
+                # trait bound refers to) come first in some diagnostics
+                ordered = sorted(spans, key=lambda sp: not sp.get("is_primary"))
+                ln = ordered[0]["line_start"]; src = E.line_src.get(ln)
                 where = " [%s:%d]" % src if src else " [generated line %d]" % ln
-                for r in E.records:
-                    if r.out_first <= ln <= r.out_last:
-                        culprit = r.qname
+                for sp in ordered:
+                    for r in E.records:
+                        if r.out_first <= sp["line_start"] <= r.out_last:
+                            culprit = r.qname; break
+                    if culprit: break
             R.tool_errors.append("verus: %s%s" % (d.get("message", "")[:400], where))
             if culprit:
                 R.tool_culprits.append(culprit)
